@@ -23,6 +23,7 @@ type Ctx struct {
 	Repo     string
 	Verif    string
 	Thorough bool
+	boundsSeen map[string]bool
 
 	cfgs     map[*ast.FuncDecl]*cfg.CFG
 	mods     map[*ssa.Function]map[string]bool
